@@ -51,6 +51,20 @@ FIXED = [
          {"tt": "object", "src": 1, "props": [["type", {"tt": "string", "src": 1, "v": "integer"}], ["min", {"tt": "number", "src": 1, "v": "0"}]]},
          {"tt": "object", "src": 1, "props": [["type", {"tt": "string", "src": 1, "v": "string"}]]},
          {"tt": "reference", "src": 1, "v": "@t"}]}]]}),
+    # a note after a closing brace stands on a line without an example: it is the note of no node, and the notes of the properties stay theirs
+    ("{ // note of the object\n  \"a\": 1 // note of a\n}", [],
+     {"tt": "object", "st": "object", "c": "note of the object", "ch": [{"tt": "number", "st": "integer", "key": "a", "v": "1", "c": "note of a"}]}),
+    ("{\n  \"a\": 1 // note of a\n} // note after the brace", [],
+     {"tt": "object", "st": "object", "ch": [{"tt": "number", "st": "integer", "key": "a", "v": "1", "c": "note of a"}]}),
+    # rule values as written: a one-name allOf list is a list; a quoted "true" is a string
+    ("{ // {allOf: [\"@p\"]}\n  \"own\": 1\n}", [["@p", "{\n  \"inherited\": \"s\"\n}"]],
+     {"tt": "object", "st": "object", "rules": [["allOf", {"tt": "array", "src": 1, "items": [{"tt": "reference", "src": 1, "v": "@p"}]}]], "ch": [{"tt": "number", "st": "integer", "key": "own", "v": "1"}]}),
+    ("{ // {allOf: [\"@p\", \"@q\"]}\n  \"own\": 1\n}", [["@p", "{\n  \"inherited\": \"s\"\n}"], ["@q", "{\n  \"i2\": \"s\"\n}"]],
+     {"tt": "object", "st": "object", "rules": [["allOf", {"tt": "array", "src": 1, "items": [{"tt": "reference", "src": 1, "v": "@p"}, {"tt": "reference", "src": 1, "v": "@q"}]}]], "ch": [{"tt": "number", "st": "integer", "key": "own", "v": "1"}]}),
+    ("{} // {additionalProperties: \"true\"}", [],
+     {"tt": "object", "st": "object", "rules": [["additionalProperties", {"tt": "string", "src": 1, "v": "true"}]]}),
+    ("{} // {additionalProperties: true}", [],
+     {"tt": "object", "st": "object", "rules": [["additionalProperties", {"tt": "boolean", "src": 1, "v": "true"}]]}),
 ]
 
 
